@@ -53,6 +53,10 @@ func genCase(t *rapid.T) Case {
 		// bursts of back-to-back scalar loads (up to 24 outstanding per wavefront) fill the scalar
 		// unit's request buffer when many wavefronts are resident
 		SBurst: rapid.Bool().Draw(t, "sbursts"),
+		// programs may end with a scalar load nobody waits for: s_endpgm has to
+		TrailSLoad: true,
+		// wavefront 0 of a group may reach a barrier much later than its siblings
+		WaveDep: true,
 	}
 	switch rapid.IntRange(0, 5).Draw(t, "shape") {
 	case 5:
@@ -70,9 +74,16 @@ func genCase(t *rapid.T) Case {
 		groups := rapid.IntRange(6, 10).Draw(t, "groups")
 		opts.FixedGeo = &kgen.Geometry{Grid: [3]uint32{uint32(256 * groups), 1, 1}, WG: [3]uint16{256, 1, 1}}
 		opts.Comm, opts.Partial, opts.MaxOps, opts.MaxValues = true, false, 10, 8
+		opts.LateWave = rapid.Bool().Draw(t, "latewave")
 	case 1:
 		c.CUPerSA = rapid.SampledFrom([]int{1, 2}).Draw(t, "cupersa")
 		c.SAs = rapid.SampledFrom([]int{1, 2, 4}).Draw(t, "sas")
+	}
+	if opts.FixedGeo == nil && rapid.IntRange(0, 3).Draw(t, "leadloads") == 0 {
+		// 14-20 vector loads in flight before the first is used: wait counts at and beyond the
+		// 4-bit field's maximum
+		opts.LeadLoads = rapid.IntRange(14, 20).Draw(t, "nleadloads")
+		opts.MaxItems = 512
 	}
 	c.Prog = kgen.GenProgram(t, opts)
 	return c
